@@ -130,6 +130,9 @@ void Model::add(const std::string &name, Model &model) {
 
 const Model &Model::get_semiterminal(
     const std::vector<std::string> &names) const {
+  if (names.empty()) {
+    PRIMITIV_THROW_ERROR("Parameter or submodel not found: empty name list.");
+  }
   const Model *cur = this;
   for (auto it = names.begin(), end = names.end() - 1; it != end; ++it) {
     const auto next = cur->submodel_kv_.find(*it);
